@@ -44,8 +44,10 @@ def parse_line_words(textline: dict) -> List[pdm.PageXMLWord]:
         textline["Word"] = [textline["Word"]]
     for word_dict in textline["Word"]:
         if 'TextEquiv' not in word_dict or word_dict['TextEquiv'] is None:
-            continue
-        if isinstance(word_dict["TextEquiv"]["Unicode"], str):
+            # a Word without TextEquiv is still a Word (with coordinates but no text)
+            word_dict = {**word_dict, 'TextEquiv': None}
+            unicode_string = None
+        elif isinstance(word_dict["TextEquiv"]["Unicode"], str):
             unicode_string = word_dict["TextEquiv"]["Unicode"]
         elif isinstance(word_dict["TextEquiv"]["Unicode"], dict):
             unicode_string = word_dict["TextEquiv"]["Unicode"]['#text']
